@@ -635,3 +635,47 @@ Definition emit_report (st : store) (v : value) (ast1 ast2 : option expr) : stri
       ++ bit (v_body_lossy v)
       ++ bit (match emit_ast true true v with Some e => paren_lossy e | None => false end)
   ++ " A1" ++ cmp ast1 ++ " A2" ++ cmp ast2.
+
+(* ------------------------------------------------------------------------------------------ *)
+(* first-order bodies: no lambda is created while the body runs, no `#input` reference, and
+   assignments only as direct statements of do-blocks (where they may shadow; elsewhere an
+   assignment consults the CALLER's scope chain, finding F32 of C04).  For these bodies the
+   inlining theorem (proofs/EmitSound.v) is an equality of outcomes and stores. *)
+Fixpoint first_order_body (e : expr) {struct e} : bool :=
+  match e with
+  | ELam _ _ | EInRef _ | EAssign _ _ | EOutput _ => false   (* `output` is a statement form *)
+  | EList items =>
+      (fix go (l : list (commented expr)) : bool :=
+         match l with [] => true | Cm _ a _ :: r => first_order_body a && go r end) items
+  | ERec entries =>
+      (fix go (l : list (commented rentry)) : bool :=
+         match l with
+         | [] => true
+         | Cm _ (REntry k v) _ :: r =>
+             (match k with
+              | KDyn a => first_order_body a && first_order_body v
+              | KSpread a => first_order_body a
+              | KStatic _ => first_order_body v
+              | KShort _ => true
+              end) && go r
+         end) entries
+  | ECond c t f => first_order_body c && first_order_body t && first_order_body f
+  | EDo stmts (Cm _ ret _) =>
+      (fix go (l : list (commented expr)) : bool :=
+         match l with
+         | [] => true
+         | Cm _ a _ :: r =>
+             (match a with EAssign _ v => first_order_body v | _ => first_order_body a end) && go r
+         end) stmts && first_order_body ret
+  | EUn _ a | EFact a | ESpread a | EDot a _ => first_order_body a
+  | ECall f args =>
+      first_order_body f && (fix go (l : list expr) : bool :=
+                               match l with [] => true | a :: r => first_order_body a && go r end) args
+  | EAccess a i => first_order_body a && first_order_body i
+  | EBin _ l r => first_order_body l && first_order_body r
+  | _ => true
+  end.
+
+(* names the evaluator never looks up in the environment *)
+Definition special_name (x : string) : bool :=
+  String.eqb x "infinity" || String.eqb x "inf" || String.eqb x "constants".
